@@ -369,9 +369,13 @@ Fixpoint group_match (r : trow) (gkey : list (colid * val)) : bool :=
 Definition lookup_records (tbl : list trow) (has_manual_sort : bool) (gkey : list (colid * val))
            (order_by : list (list Z)) (sort_by : list Z) : option rset :=
   let sspec := map split_col_spec (make_sort_spec order_by sort_by has_manual_sort) in
-  match rows_of (filter (fun r => group_match r gkey) tbl) (map fst sspec) with
-  | Some rows => Some (mkRset (map snd sspec) (sort_rows (map snd sspec) rows))
+  match rows_of tbl (map fst sspec) with       (* the sort columns must exist, whatever the key matches *)
   | None => None
+  | Some _ =>
+      match rows_of (filter (fun r => group_match r gkey) tbl) (map fst sspec) with
+      | Some rows => Some (mkRset (map snd sspec) (sort_rows (map snd sspec) rows))
+      | None => None
+      end
   end.
 
 Inductive op : Type := OLt | OLe | OGt | OGe | OEq | OPrev | ONext | ORankAsc | ORankDesc.
